@@ -693,8 +693,9 @@ func probeScenarios() []Scenario {
 		var label string
 		body := func() {
 			firstStop := core.Choose(2) == 1
+			// (the limit is also LOWERED between the runs: 2 -> 1)
 			c1 := concVals[core.Choose(2)]
-			c2 := concVals[core.Choose(2)]
+			c2 := []int{0, 2, 1}[core.Choose(3)]
 			useOpts := core.Choose(2) == 1 // initial configuration through options or through builder methods
 			var b *flyt.BatchNodeBuilder
 			if useOpts {
